@@ -124,10 +124,10 @@ func init() {
 		if withTemplates {
 			// a schema carrying query templates of every resource kind: POST /queries/{id}/run is then a read route
 			// whose body (vars, params, cursor) is client input
-			sc.Setup = append(sc.Setup, Op{ID: g.id("s"), Kind: KSchema, Ledger: "l1", SchemaVersion: "s.q", Schema: json.RawMessage(`{"chart":{"world":{},"bank":{},"u":{"$id":{".pattern":"^[0-9]+$"}}},"queries":{`+
-				`"QT":{"resource":"transactions","vars":{"ref":"string"},"body":{"$match":{"reference":"${ref}"}}},`+
-				`"QA":{"resource":"accounts","vars":{"a":{"type":"string","default":"u:"}},"body":{"$match":{"address":"${a}"}}},`+
-				`"QL":{"resource":"logs","params":{"pageSize":2}},`+
+			sc.Setup = append(sc.Setup, Op{ID: g.id("s"), Kind: KSchema, Ledger: "l1", SchemaVersion: "s.q", Schema: json.RawMessage(`{"chart":{"world":{},"bank":{},"u":{"$id":{".pattern":"^[0-9]+$"}}},"queries":{` +
+				`"QT":{"resource":"transactions","vars":{"ref":"string"},"body":{"$match":{"reference":"${ref}"}}},` +
+				`"QA":{"resource":"accounts","vars":{"a":{"type":"string","default":"u:"}},"body":{"$match":{"address":"${a}"}}},` +
+				`"QL":{"resource":"logs","params":{"pageSize":2}},` +
 				`"QV":{"resource":"volumes","params":{"pageSize":2}}}}`)})
 		}
 		nc := 1 + r.Intn(2)
